@@ -49,9 +49,15 @@ func toNotification(host *Host) Notification {
 }
 
 func (h *Session) sendNotification(notification Notification) {
-	if len(h.C) < cap(h.C) {
-		h.C <- notification
+	h.mutex.RLock() // Close sets closed under the write lock before it closes the channel
+	defer h.mutex.RUnlock()
+	if h.closed {
 		return
+	}
+	select {
+	case h.C <- notification:
+		return
+	default: // never block while holding the lock
 	}
 	Logger.Msg("notification channel is full").Int("len", len(h.C)).Struct(notification).Write()
 }
